@@ -43,6 +43,12 @@ RULE = ('Hypothesis draws N in 1..40 (thorough 1..120), batch_size in 1..50 '
         '>= 2N drawn examples); the re-shuffle / seed families additionally '
         'need N >= 2, shuffling enabled and their decisiveness condition.  '
         'distinct = distinct canonical case JSON.')
+RULE += (
+    ' '
+    'Later widenings: call forms include hparams overridden partially, hparams.replace and po'
+    'sitional construction; num_epochs up to 33 over small datasets; the dataset may be the h'
+    'ead of a longer dataset in use; one case in thirteen has 257-1000 (rarely 66000) example'
+    's.')
 ASSUMPTIONS = [
     'N >= 1 (an empty dataset with num_epochs=None never terminates; outside '
     'the property)',
